@@ -26,6 +26,13 @@ func (api *API) encode(ctx context.Context, value reflect.Value, ts TypeSettings
 		typeSettingValue := value
 		if valueType.Kind() == reflect.Interface {
 			typeSettingValue = value.Elem()
+			// the object is held in an interface: its validator is registered for its own type, and Decode
+			// validates the object it builds for the interface - so Encode has to validate it as well
+			if opts.validation {
+				if err = api.callSyntacticValidator(ctx, typeSettingValue, typeSettingValue.Type()); err != nil {
+					return nil, ierrors.Errorf("pre-serialization validation failed: %w", err)
+				}
+			}
 		}
 		globalTS, _ := api.typeSettingsRegistry.GetByType(typeSettingValue.Type())
 		ts = ts.merge(globalTS)
